@@ -218,6 +218,18 @@ CHECKS["C11"] = dict(
     modelled="handleWebsocketProtocol/handleLegacyProtocol defers, Tunnel.Close, forward's exit rule (facts); bounded time, goroutine "
              "termination and socket states are measured, not proved.")
 
+CHECKS["C20"] = dict(
+    text="PARTIAL. Theorems over the transcription of the KDC proxy: the DER codec of KDC-PROXY-MESSAGE (definite minimal "
+         "lengths) round-trips for messages up to 1 MiB and the wrapped reply decodes to exactly the KDC's reply; requests that "
+         "are not POST, declare no length or exceed 128 KiB get 405/411/413 from the headers alone and undecodable bodies get 400 "
+         "whatever the KDCs would do (nothing is sent); what a TCP KDC receives is the embedded message; when a KDC of the realm "
+         "replies the response is that reply wrapped, and it came from one of the realm's KDCs; when none replies the answer is "
+         "503; the handler is total and every wait carries the 5 s deadline. The real handler runs against fake TCP/UDP KDCs "
+         "with 9 behaviour sets, payload sizes to 128 KiB, four realm cases and the malformed-body stream; latency is measured.",
+    design="7/C20", technique="Coq proof (DER round trip with arithmetic on length encodings, relay exactness) + correspondence against fake KDCs",
+    modelled="KerberosProxy.Handler, decode/encode, forward/awaitReply (hand transcription of the repaired code); gofork asn1 beyond "
+             "this message shape, gokrb5's config parser and KDC ordering, sockets and timers are exercised only; wall-clock bounds measured.")
+
 NOT_YET = {}
 
 
